@@ -68,6 +68,12 @@ Round 6: a local that is a pure alias of an earlier local (`m = m__i2` after a s
 `<\\/`, `\\u003c`; `\\!`, `\\'` or `&lt;` are refuted); a section map built as `{k: list(v) for k, v in groupby(<unsorted tasks>)}`
 is refuted (later runs of a section overwrite earlier ones).
 
+Round 7: a text helper with guard returns around its loop is spliced with one emission per return; `Template` / `string`
+resolved through a helper of another module inlined here; lines collected in a dict (`d[key] = line`, `''.join(d.values())`) are
+read as emissions whose key must contain the id of every task on the line (key by name, or not depending on an end: refuted);
+a link id that glues `p.id` and `t.id` together without a separator is refuted; a path that needs a section's group to be
+empty is infeasible (groups exist because a task was appended).
+
 Engine limitations worked around here (helpers below, nothing under sa/ was changed): string-building normalisation (`parts`),
 inlining of multi-statement single-return helpers (`deep`), path enumeration with event counts (`paths`, DESIGN 3.7 is not in
 sa/), structural loop nesting (`loop_chains`), accumulator recognition (`Acc`), a propositional evaluator for branch conditions,
@@ -702,6 +708,7 @@ class Canon:
         self.dead: set = set()          # id of pieces that could not be rewritten
         self._nz = None
         self._gen: Dict[str, Optional[Func]] = {}
+        self.keyed: Dict[int, ast.AST] = {}    # id(emission statement) -> dict key under which the line was collected
 
     # ------------------------------------------------------------------ helpers
     def fresh(self, base: str) -> str:
@@ -752,16 +759,25 @@ class Canon:
         if h is None:
             return None
         rets = [n for n in walk_no_nested(h.node) if isinstance(n, ast.Return)]
-        if len(rets) != 1 or h.body[-1] is not rets[0] or rets[0].value is None:
+        if not rets or any(r.value is None for r in rets):
             return None
+        if len(rets) != 1 or h.body[-1] is not rets[0]:
+            # guard returns before / around a loop that builds the text: spliced with one emission per return;
+            # straight-line if/return chains are left to the Expander (conditional expression)
+            if not any(isinstance(n, (ast.For, ast.While)) for n in walk_no_nested(h.node)):
+                return None
+            return h if self.checks_ok(h) else None
         if single_return_value(self.ctx, h) is not None:
             return None                     # `deep` inlines it as an expression
+        return h if self.checks_ok(h) else None
+
+    def checks_ok(self, h: Func) -> bool:
         if any(isinstance(n, (ast.Yield, ast.YieldFrom, ast.Try, ast.With, ast.FunctionDef, ast.Lambda, ast.Global, ast.Nonlocal))
                for n in ast.walk(h.node) if n is not h.node):
-            return None
+            return False
         if any(isinstance(n, ast.Call) and helper_of(self.ctx, h, n) == h for n in ast.walk(h.node)):
-            return None
-        return h
+            return False
+        return True
 
     def complex_piece(self, p: ast.AST) -> bool:
         if id(p) in self.dead:
@@ -860,7 +876,9 @@ class Canon:
             return self.f0
         ast.fix_missing_locations(self.node)
         import dataclasses
-        return dataclasses.replace(self.f0, node=self.node)
+        fn = dataclasses.replace(self.f0, node=self.node)
+        fn._c19_keyed = self.keyed
+        return fn
 
     # ------------------------------------------------------------------ producer list + one consumer loop -> fused
     def fuse_block(self, stmts: List[ast.stmt]) -> List[ast.stmt]:
@@ -1011,14 +1029,15 @@ class Canon:
             return ([self.emit(a, True, ast.Constant(value=''), st)] if init else []) + body
         h = self.spliceable(arg)
         if h is not None:
-            blk = self.splice(h, arg, st)
+            def leaf(val):
+                if j:
+                    val = ast.Call(func=ast.Attribute(value=ast.Constant(value=sep), attr='join', ctx=ast.Load()), args=[val], keywords=[])
+                return self.emit(a, False, val, st)
+            blk = self.splice(h, arg, st, leaf)
             if blk is None:
                 self.dead.add(id(p))
                 return None
-            pre, val = blk
-            if j:
-                val = ast.Call(func=ast.Attribute(value=ast.Constant(value=sep), attr='join', ctx=ast.Load()), args=[val], keywords=[])
-            return pre + [self.emit(a, init, val, st)]
+            return ([self.emit(a, True, ast.Constant(value=''), st)] if init else []) + blk[0]
         self.dead.add(id(p))
         return None
 
@@ -1109,7 +1128,10 @@ class Canon:
                 self.changed = True
         return out
 
-    def splice(self, h: Func, call: ast.Call, at) -> Optional[Tuple[List[ast.stmt], ast.AST]]:
+    def splice(self, h: Func, call: ast.Call, at, leaf=None) -> Optional[Tuple[List[ast.stmt], ast.AST]]:
+        """statements of h bound to the call.  Without `leaf`: (statements, value expression) for a helper with one trailing
+        return.  With `leaf`: every `return V` of h becomes the statement leaf(V) (the normaliser's block form makes each
+        return the last statement of its path), result (statements, None)"""
         from sa import normalize
         sub = _bind(h, call)
         if sub is None:
@@ -1125,6 +1147,34 @@ class Canon:
             return None
         if not blk:
             return None
+        if leaf is not None:
+            def is_res(st_):
+                return isinstance(st_, ast.Assign) and len(st_.targets) == 1 and isinstance(st_.targets[0], ast.Name) and \
+                    st_.targets[0].id == tmp
+
+            def rec(body):
+                out = []
+                for k_, st_ in enumerate(body):
+                    if is_res(st_):
+                        if k_ != len(body) - 1:
+                            raise ValueError('result assignment is not the last statement of its block')
+                        out.append(leaf(st_.value))
+                        continue
+                    if isinstance(st_, (ast.For, ast.While)) and any(is_res(x) for x in ast.walk(st_)):
+                        raise ValueError('return inside a loop')
+                    for fld in ('body', 'orelse'):
+                        b_ = getattr(st_, fld, None)
+                        if isinstance(b_, list) and b_ and isinstance(b_[0], ast.stmt):
+                            setattr(st_, fld, rec(b_))
+                    out.append(st_)
+                return out
+            try:
+                new_blk = rec(blk)
+            except ValueError:
+                return None
+            if any(isinstance(n, ast.Name) and n.id == tmp for s_ in new_blk for n in ast.walk(s_)):
+                return None
+            return new_blk, None
         last = blk[-1]
         if not (isinstance(last, ast.Assign) and len(last.targets) == 1 and isinstance(last.targets[0], ast.Name) and
                 last.targets[0].id == tmp):
@@ -1147,6 +1197,65 @@ class Canon:
                         self.changed = True
                     else:
                         self.dead.add(id(p))
+                elif j and id(p) not in self.dead and isinstance(j[1], ast.Call) and not j[1].args and not j[1].keywords and \
+                        isinstance(j[1].func, ast.Attribute) and j[1].func.attr == 'values' and isinstance(j[1].func.value, ast.Name):
+                    if self.dict_to_text(j[1].func.value.id, j[0], p):
+                        self.changed = True
+                    else:
+                        self.dead.add(id(p))
+
+    def dict_to_text(self, x: str, sep: str, use: ast.Call) -> bool:
+        """lines collected as `x[key] = line` in a dict created empty and read by this one `sep.join(x.values())`: written as
+        `x += line`; the key of every line is kept in self.keyed - the rule has to show that the key does not merge lines"""
+        plan: Dict[int, List[ast.stmt]] = {}
+        ok_names = {id(use.args[0].func.value)}
+        inits, elems = 0, []
+        for st in walk_no_nested(self.node):
+            if not (isinstance(st, ast.Assign) and len(st.targets) == 1):
+                continue
+            tg = st.targets[0]
+            if isinstance(tg, ast.Name) and tg.id == x:
+                if not (match("{}", st.value) or match("dict()", st.value)):
+                    return False
+                inits += 1
+                plan[id(st)] = [self.emit(x, True, ast.Constant(value=''), st)]
+                ok_names.add(id(tg))
+            elif isinstance(tg, ast.Subscript) and isinstance(tg.value, ast.Name) and tg.value.id == x:
+                new = self.emit(x, False, _with_sep(st.value, sep), st)
+                self.keyed[id(new)] = tg.slice
+                elems.append(st.value)
+                plan[id(st)] = [new]
+                ok_names.add(id(tg.value))
+        if inits != 1 or not elems:
+            return False
+        if any(isinstance(n, ast.Name) and n.id == x and id(n) not in ok_names for n in walk_no_nested(self.node, include_lambdas=True)):
+            return False
+
+        def rec(body):
+            out = []
+            for st in body:
+                if id(st) in plan:
+                    out.extend(plan[id(st)])
+                    continue
+                if not isinstance(st, (ast.FunctionDef, ast.AsyncFunctionDef, ast.ClassDef)):
+                    for fld in ('body', 'orelse', 'finalbody'):
+                        b = getattr(st, fld, None)
+                        if isinstance(b, list) and b and isinstance(b[0], ast.stmt):
+                            setattr(st, fld, rec(b))
+                out.append(st)
+            return out
+        self.node.body = rec(self.node.body)
+        marked = bool(sep) and not all(_ends_line(el) for el in elems)
+
+        class T(ast.NodeTransformer):
+            def visit_Call(self, n):
+                if n is use:
+                    if marked:
+                        return ast.copy_location(ast.BinOp(left=_name(x), op=ast.Add(), right=_marker(sep)), n)
+                    return ast.copy_location(_name(x), n)
+                return self.generic_visit(n)
+        T().visit(self.node)
+        return True
 
     def list_to_text(self, x: str, sep: str, use: ast.Call) -> bool:
         """`x` is created once as a list display, only appended to / extended, and read by this one join"""
@@ -1559,8 +1668,8 @@ def substitute_call(ctx, R):
         raise Und(f, f.node, 'to_html', f"{len(calls)} Template.substitute calls in to_html (expected one)")
     c = calls[0]
     recv = deep(ctx, f, c.func.value, flow_of(f).node_of_expr(c))
-    m = (match("Template($t)", recv) if f.module.imports.get('Template') == 'string.Template' else None) or \
-        (match("string.Template($t)", recv) if f.module.imports.get('string') == 'string' else None)
+    m = (match("Template($t)", recv) if name_origin(ctx, f, 'Template') == 'string.Template' else None) or \
+        (match("string.Template($t)", recv) if name_origin(ctx, f, 'string') == 'string' else None)
     if not m:
         raise Und(f, c, c.func.value, "substitute() receiver is not Template(<text>)")
     kws = {}
@@ -2081,8 +2190,19 @@ def gantt_once(ctx, o):
                     if P in ch and e2 not in es:
                         atoms[id(e2.stmt)] = 'extra'
                 ok = True
+                gvar = raw.id if isinstance(raw, ast.Name) else None
+
+                def group_empty(pth):
+                    """the path needs the group of a section to be empty: impossible, a group exists because a task was appended"""
+                    for t_, pol_ in pth.conds:
+                        for a_, ap_ in facts.split_conj(t_, pol_):
+                            em_ = emptiness(a_) or ((a_, False) if isinstance(a_, ast.Name) else None)
+                            if em_ and gvar and isinstance(strip_seq(em_[0]), ast.Name) and strip_seq(em_[0]).id == gvar and \
+                                    (em_[1] if ap_ else not em_[1]):
+                                return True
+                    return False
                 for p in paths(P.body, atoms):
-                    if p.exit == 'raise':
+                    if p.exit == 'raise' or group_empty(p):
                         continue
                     labels = [l for l, _ in p.events]
                     if p.exit in ('break', 'return'):
@@ -2527,6 +2647,32 @@ def check_network(ctx, o, osk):
             o.undecided(f, ed.stmt, ed.stmt, "an edge line is emitted outside a loop over self.wbs.tasks")
             continue
         groups.setdefault(id(T), (T, []))[1].append((ed, C[C.index(T) + 1:]))
+    if _bad(o) > n0:
+        return
+    keyed = getattr(f, '_c19_keyed', {})
+    for ed in edges:
+        if id(ed.stmt) not in keyed:
+            continue
+        key = deep(ctx, f, keyed[id(ed.stmt)], flow_of(f).node_of_expr(ed.stmt.value))
+        for b_ in ed.sides[0][0] + ed.sides[1][0]:
+            attrs = {x.attr for x in ast.walk(key) if isinstance(x, ast.Attribute) and same(x.value, b_)}
+            if 'id' in attrs:
+                continue
+            if not any(same(x, b_) for x in ast.walk(key)):
+                o.refute(f, ed.stmt, f"edge lines keyed by {src(key)[:60]}",
+                         f"the edge lines are collected in a dict under the key `{src(key)[:80]}`, which does not depend on "
+                         f"`{src(b_)}`: the edges of all `{src(b_)}` share one key and overwrite each other, only the last one is drawn")
+                break
+            if 'name' in attrs:
+                o.refute(f, ed.stmt, f"edge lines keyed by {src(key)[:60]}",
+                         f"the edge lines are collected in a dict under the key `{src(key)[:80]}`, which identifies `{src(b_)}` by its "
+                         f"name and not by its id: names are not unique, so edges between different tasks with the same names "
+                         f"overwrite each other and a dependency loses its edge (expected the ids of both ends in the key)")
+            else:
+                o.undecided(f, ed.stmt, f"edge lines keyed by {src(key)[:60]}",
+                            f"the edge lines are collected in a dict under the key `{src(key)[:80]}`; cannot tell whether it "
+                            f"distinguishes every `{src(b_)}`")
+            break
     if _bad(o) > n0:
         return
     for T, eds in groups.values():
@@ -3164,6 +3310,33 @@ def check_dhtmlx(ctx, O):
             o.refute(f, st, f"link id: {src(idv)} from {src(Pl.iter)[:40]}",
                      f"link id `{src(idv)}` is the position of the predecessor inside `{src(Pl.iter)[:50]}`: numbering restarts for every "
                      f"task, so link ids are not unique (expected a counter that runs over all links)")
+            counter_ok = False
+            continue
+        leaves = []
+
+        def id_leaves(e):
+            if isinstance(e, ast.IfExp):
+                id_leaves(e.body)
+                id_leaves(e.orelse)
+                return
+            while isinstance(e, ast.Call) and isinstance(e.func, ast.Name) and e.func.id in ('int', 'str') and len(e.args) == 1:
+                e = e.args[0]
+            leaves.append(e)
+        id_leaves(deep(ctx, f, idv, at))
+        glued = None
+        for lf in leaves:
+            ps_ = parts(lf)
+            if len(ps_) == 1 and ps_[0][0] == 'val' and isinstance(ps_[0][1], ast.BinOp) and isinstance(ps_[0][1].op, ast.Add):
+                ps_ = [q for piece in _concat(ps_[0][1]) for q in parts(piece)]      # str(a) + str(b)
+            idvals = [k_ for k_, (kd, v_) in enumerate(ps_) if kd == 'val' and (match(f"{p}.id", sanitiser(v_)[0]) or
+                                                                                  match(f"{tk}.id", sanitiser(v_)[0]))]
+            if len(idvals) >= 2 and len(idvals) == len(vals(ps_)) and any(b2 == a2 + 1 for a2, b2 in zip(idvals, idvals[1:])):
+                glued = lf
+        if glued is not None:
+            o.refute(f, st, f"link id: {src(glued)[:50]}",
+                     f"link id `{src(glued)[:60]}` glues the ids of the two ends together without a separator: different "
+                     f"dependencies can produce the same text (ids 1,23 and 12,3), so link ids are not unique (expected a "
+                     f"running counter or len({B}) + 1)")
             counter_ok = False
             continue
         mn = match("next($c)", idv)
